@@ -268,6 +268,9 @@ func (t *tree) forms(n *lib.Node) []formed {
 	base := cp(t.indexed(p), PStep{K: "field", S: n.N})
 	if n.Li {
 		g, pos := t.group(n)
+		if pos == 0 && render(base) != render(pl) {
+			out = append(out, formed{"list", base})
+		}
 		if pos == 0 {
 			out = append(out, formed{"first", cp(base, PStep{K: "first"})})
 		}
@@ -432,6 +435,15 @@ func (g *gen) valuesFor(f *Field, cur *lib.Node) []labelled {
 			}
 		}
 	}
+	if f == nil && cur != nil && cur.K == "resource" {
+		// the resource itself: a resource of the same type
+		for _, d := range g.donors[cur.Pn] {
+			if d.Node.H != cur.H {
+				out = append(out, labelled{"right", donorVal(d)})
+				break
+			}
+		}
+	}
 	// wrong types
 	if !hasTy("boolean") {
 		out = append(out, labelled{"wrong", mkBool(true)})
@@ -495,7 +507,7 @@ func (g *gen) enumerate(name string) []Behaviour {
 			// a reduced cross for the others
 			for _, v := range vals {
 				for idx := -1; idx <= len(grp)+1; idx++ {
-					full := fm.form == "plain" || (fm.form == "indexed" && !x.Li)
+					full := fm.form == "plain" || fm.form == "list" || (fm.form == "indexed" && !x.Li)
 					if !full && !(idx == 0 || (v.label == "right" && idx <= 1)) {
 						continue
 					}
@@ -506,7 +518,7 @@ func (g *gen) enumerate(name string) []Behaviour {
 				}
 			}
 			// add: the node addressed by this path is the element that gains a child
-			if fm.form == "lastidx" || strings.HasPrefix(fm.form, "anc") && fm.form != "ancwhere" {
+			if fm.form == "lastidx" || fm.form == "list" || strings.HasPrefix(fm.form, "anc") && fm.form != "ancwhere" {
 				continue
 			}
 			names := g.addNames(x)
@@ -758,7 +770,7 @@ func cmdGen(outdir string) {
 		lib.Fatal("%v", err)
 	}
 	total, kept := 0, 0
-	for _, name := range []string{"M0", "MR1", "MR2", "MR3", "MR4"} {
+	for _, name := range []string{"M0", "M2", "MR1", "MR2", "MR3", "MR4"} {
 		all := g.enumerate(name)
 		total += len(all)
 		sel := all
@@ -783,7 +795,7 @@ func cmdGen(outdir string) {
 			// keep every fourth inverse pair in the quick tier (rotating with the seed)
 			var keep []Behaviour
 			for i, b := range rb {
-				if b.Src != "inverse" || (i+int(seed))%4 == 0 || name == "M0" {
+				if b.Src != "inverse" || (i+int(seed))%4 == 0 || name == "M0" || name == "M2" {
 					keep = append(keep, b)
 				}
 			}
@@ -806,9 +818,6 @@ func cmdGen(outdir string) {
 // class, index class), one seeded representative - and every case of the small
 // model M0 and of the fully indexed form on MR1.
 func quickSelect(name string, all []Behaviour, seed int64) []Behaviour {
-	if name == "M0" {
-		return all
-	}
 	type pick struct {
 		b Behaviour
 		h uint32
@@ -827,9 +836,13 @@ func quickSelect(name string, all []Behaviour, seed int64) []Behaviour {
 			}
 		}
 		last := s.Path[len(s.Path)-1]
-		key := strings.Join([]string{s.Op, s.Form, s.VLabel, idxc, last.K, last.S, s.Name, s.Val.Mk}, "|")
-		if name != "MR1" {
-			key = strings.Join([]string{s.Op, s.Form, s.VLabel, idxc, last.K, s.Val.Mk, fmt.Sprint(stableHash(last.S+s.Name) % 5)}, "|")
+		buckets := uint32(3)
+		if name == "MR1" {
+			buckets = 12
+		}
+		key := strings.Join([]string{s.Op, s.Form, s.VLabel, idxc, last.K, s.Val.Mk, fmt.Sprint(stableHash(last.S+s.Name) % buckets)}, "|")
+		if name == "M2" && (last.S == "maxLength" || s.Name == "maxLength") {
+			key = b.ID // the plain `integer` element: always kept
 		}
 		h := stableHash(fmt.Sprintf("%d|%s", seed, b.ID))
 		if p, ok := best[key]; !ok {
